@@ -35,6 +35,7 @@ def okB (s : St) : Op → Bool
                     && kvs.all (fun kv => !s.objs.contains kv.2)
   | .popIdx _ => true
   | .popKey _ => true
+  | .popKeyD _ _ => true
   | .remove _ => true
   | .clear => true
   | .replaceList os => decide os.Nodup
@@ -54,7 +55,10 @@ def viewsOk (o : Obs) (c : Bool) (univ : List Obj) : Option String :=
 
 /-- conclusions about one call, given the observation before and after -/
 def callOk (prev cur : Obs) (c : Bool) (op : Op) : Option String :=
-  let mutator := match op with | .assign _ => false | _ => true
+  let mutator := match op with
+    | .assign _ => false
+    | .popKeyD k _ => (Dict.get? prev.names k).isSome     -- a missing key: the default is returned, nothing changes
+    | _ => true
   if cur.err.isNone && mutator && cur.notifs.length != 1 then
     some s!"{cur.notifs.length} notifications for one successful mutation"
   else if (cur.err.isSome || !mutator) && !cur.notifs.isEmpty then
@@ -77,6 +81,19 @@ def callOk (prev cur : Obs) (c : Bool) (op : Op) : Option String :=
       else if cur.list.contains o then some "pop(key) left the object in place"
       else none
     | none => if cur.err.isNone then some "pop(key) succeeded on a missing key" else none
+  | .popKeyD k d =>
+    if prev.names.isEmpty then none else
+    match Dict.get? prev.names k with
+    | some o =>
+      if cur.err.isSome then some "pop(key, default) failed on an existing key"
+      else if cur.ret != some o then some "pop(key, default) did not return the object it removed"
+      else if cur.list.contains o then some "pop(key, default) left the object in place"
+      else none
+    | none =>
+      if cur.err.isSome then some "pop(key, default) raised for a missing key"
+      else if cur.ret != some d then some "pop(key, default) did not return the default for a missing key"
+      else if cur.list != prev.list || cur.names != prev.names then some "pop(key, default) of a missing key changed the objects"
+      else none
   | .assign v =>
     if c then
       if cur.err.isNone != prev.list.contains v then some "membership not checked against the current objects"
